@@ -22,6 +22,7 @@ func vrtC04Callback(st *vrtStore, ar *vrtAuthReq, rp vrtReply, d vrtDelivery, su
 		vrtCover("C04.enveloped-success")
 		vrtAssert("C04.success-assertion-is-signed", a.Signature != nil)
 		if a.Signature != nil {
+			vrtFinding("C04.xmlsig-digests-text-unescaped", vrtC14NSensitive(a))
 			vrtAssert("C04.enveloped-signature-verifies-on-the-wire", vrtEnvelopedValid(a, a.Signature, cert))
 			ki := a.Signature.KeyInfo
 			vrtAssert("C04.keyinfo-is-the-published-certificate", ki != nil && len(ki.X509Data) == 1 && ki.X509Data[0].X509Certificate == vrtB64(cert))
